@@ -1235,7 +1235,10 @@ class FloatingPointHelper:
         s,e,m = FloatingPointHelper.fp_to_parts(v)
 
         if (m == 0):
-            return 0,0,0
+            # keep the sign of a negative zero (as dp_to_ieee754_parts does)
+            v = math.copysign(1, v)
+            s = 0 if v > 0 else 1
+            return s,0,0
         else:
             if (e >= 128):
                 return s,255,0  # infinity
